@@ -3,6 +3,8 @@
   strings.EqualFold over the command table), and the sequential `step`.
 -/
 import SugarModel.Model.Generic
+import SugarModel.Model.ListCmd
+import SugarModel.Model.HashCmd
 namespace Sugar
 
 abbrev Handler := Ctx → List Bytes → Prog Res
@@ -20,7 +22,15 @@ def handlerTable : List (Bytes × Handler) := [
   (b "flushall", handleFlush), (b "flushdb", handleFlush),
   (b "getdel", handleGetdel), (b "getex", handleGetex), (b "type", handleType),
   (b "setrange", handleSetRange), (b "strlen", handleStrLen),
-  (b "substr", handleSubStr), (b "getrange", handleSubStr), (b "append", handleAppend)]
+  (b "substr", handleSubStr), (b "getrange", handleSubStr), (b "append", handleAppend),
+  (b "lpush", handlePush true), (b "lpushx", handlePush true), (b "rpush", handlePush false), (b "rpushx", handlePush false),
+  (b "lpop", handlePop), (b "rpop", handlePop), (b "llen", handleLLen), (b "lrange", handleLRange),
+  (b "lindex", handleLIndex), (b "lset", handleLSet), (b "ltrim", handleLTrim), (b "lrem", handleLRem),
+  (b "lmove", handleLMove),
+  (b "hset", handleHSet), (b "hsetnx", handleHSet), (b "hget", handleHGet), (b "hmget", handleHGet),
+  (b "hstrlen", handleHStrLen), (b "hvals", handleHVals), (b "hrandfield", handleHRandField), (b "hlen", handleHLen),
+  (b "hkeys", handleHKeys), (b "hincrby", handleHIncrBy), (b "hincrbyfloat", handleHIncrBy), (b "hgetall", handleHGetAll),
+  (b "hexists", handleHExists), (b "hdel", handleHDel)]
 
 def lookupHandler (n : Bytes) : List (Bytes × Handler) → Option Handler
   | [] => none
